@@ -205,6 +205,10 @@ class History:
             self.apply_probe_path(step)
         elif op == 'compare_probe':
             results.extend(self.apply_compare_probe(step))
+        elif op == 'third':
+            # a plain third-party action outside any job (e.g. the release
+            # manager tags a commit)
+            self.third_party(step['action'])
         elif op == 'repeat':
             results.extend(self.apply_repeat(step))
         elif op == 'drain':
